@@ -92,7 +92,11 @@ def record_calls(ns, rng, n, tid0=0):
         start = start_dates(rng)
         unit = rng.choice(units)
         pu = u(unit).units
-        e = {"tid": tid0 + k, "seq": 0, "start": int((start - EPOCH).total_seconds() // 3600), "unit_in": str(pu)}
+        if fn in ("list", "list_src", "linear", "sinus", "daily_fluct", "random") and rng.random() < 0.3:
+            # the series starts at the requested date, which need not be on the hour (local midnight in Kolkata is 18:30 UTC)
+            start = start + timedelta(minutes=rng.choice([30, 15, 45, 59]), seconds=rng.choice([0, 0, 59]))
+        e = {"tid": tid0 + k, "seq": 0, "start": int((start - EPOCH).total_seconds() // 3600), "unit_in": str(pu),
+             "start_sub": int((start - EPOCH).total_seconds()) % 3600}
         if fn in ("list", "list_src"):
             lst = [rng.choice([0, 1, 2, 7, 1000]) for _ in range(rng.randint(1, 50))]
             if fn == "list":
@@ -162,6 +166,7 @@ def record_calls(ns, rng, n, tid0=0):
                 e["idx"], e["vals"] = hours_of(df.index), [int(round(float(x))) for x in df["value"].values._data]
                 e["off_lattice"] = True
         e["unit_out"] = str(df.dtypes.iloc[0].units)
+        e["idx_sub"] = sorted({int(x) // 10 ** 9 % 3600 for x in df.index.asi8})       # seconds past the hour of every time stamp
         if "span_written" in e:      # the caller's Quantity after the call(s): same number, same unit?
             e["span_left"] = f"{float(sp.magnitude)!r} {sp.units}"
         e["ev"] = "Call"
